@@ -550,9 +550,6 @@ macro_rules! read_tsig {
 /// Steps 1 and 2: algorithm and key lookup (no MAC is involved; the request
 /// MAC is 10 symbolic octets).  N = RDATA length = algorithm name + 26.
 fn lookup_case<const N: usize>(alg: AlgSel, keysel: KeySel, upcase: bool) {
-    if !stubs_in_force() {
-        return;
-    }
     let h: [u8; 4] = kani::any();
     let q: [u8; 4] = kani::any();
     let msg: [u8; 17] = [h[0], h[1], h[2], h[3], 0, 1, 0, 0, 0, 0, 0, 1, 0, q[0], q[1], q[2], q[3]];
@@ -563,6 +560,10 @@ fn lookup_case<const N: usize>(alg: AlgSel, keysel: KeySel, upcase: bool) {
     let time: [u8; 6] = kani::any();
     let fudge: u16 = kani::any();
     let now: [u8; 6] = kani::any();
+    // all symbolic values are drawn; see stubs_in_force
+    if !stubs_in_force() {
+        return;
+    }
     let aw = alg_wire(alg);
     let mut rd = [0u8; N];
     fill_rdata::<N>(&mut rd, aw, upcase, &time, fudge, &mac, oid, req_error);
@@ -628,9 +629,6 @@ fn lookup_case<const N: usize>(alg: AlgSel, keysel: KeySel, upcase: bool) {
 /// made on the request); used for the outcomes with a SIGNED response, where
 /// running Writer::finish_with_mac on top did not finish (see the file header).
 fn verify_case<const L: usize, const N: usize>(alg: AlgSel, accept: bool, clock: Clock, upcase: bool, finish: bool) {
-    if !stubs_in_force() {
-        return;
-    }
     let h: [u8; 4] = kani::any();
     let q: [u8; 4] = kani::any();
     let msg: [u8; 17] = [h[0], h[1], h[2], h[3], 0, 1, 0, 0, 0, 0, 0, 1, 0, q[0], q[1], q[2], q[3]];
@@ -642,6 +640,10 @@ fn verify_case<const L: usize, const N: usize>(alg: AlgSel, accept: bool, clock:
         Clock::Any => (kani::any(), kani::any(), kani::any()),
         Clock::At(off) => (t48(T0), F0, t48((T0 as i64 + off) as u64)),
     };
+    // all symbolic values are drawn; see stubs_in_force
+    if !stubs_in_force() {
+        return;
+    }
     let aw = alg_wire(alg);
     let mut rd = [0u8; N];
     fill_rdata::<N>(&mut rd, aw, upcase, &time, fudge, &mac, oid, req_error);
@@ -727,70 +729,70 @@ macro_rules! c10_stubs {
 
 // ---- step 3: verification and the response TSIG
 
-// @harness name=c10_verify_ok_sha256_l32 props=C10 tier=quick mem=6 t=1800 stubs="S5,S5a,S8,S9" kani="--no-assertion-reach-checks"
+// @harness name=c10_verify_ok_sha256_l32 props=C10 tier=quick mem=6 t=1200 stubs="S5,S5a,S8,S9" kani="--no-assertion-reach-checks"
 //   fn="verify_tsig_and_write_tsig_rr,ReadTsigRr::try_from,ReadTsigRr::verify_request,verification_core,check_mac_size,check_time,PreparedTsigRr::new_from_read,Writer::set_tsig,Writer::finish_with_mac,PreparedTsigRr::sign_response"
 //   bound="17-octet query (symbolic ID, flags, QTYPE, QCLASS) + TSIG RR: key 'k.', hmac-sha256, 32 symbolic MAC octets, symbolic original ID and error field; 2 symbolic key octets; MAC model answers 'match'; time signed T0, fudge 300, now = T0 + 300 (edge of the window); 512-octet response buffer; decided up to the return of the helper (RCODE NOERROR, request MAC and digest checked), NOT through finish_with_mac; unwind 34"
 //   sym="id, flags, qtype, qclass, key:[u8;2], mac:[u8;32], original_id, error"
 c10_stubs!(c10_verify_ok_sha256_l32, 34, verify_case::<32, 61>(AlgSel::Sha256, true, Clock::At(300), false, false));
 
-// @harness name=c10_verify_ok_sha1_l10_early_upcase props=C10 tier=quick mem=6 t=1800 stubs="S5,S5a,S8,S9" kani="--no-assertion-reach-checks"
+// @harness name=c10_verify_ok_sha1_l10_early_upcase props=C10 tier=quick mem=6 t=1200 stubs="S5,S5a,S8,S9" kani="--no-assertion-reach-checks"
 //   fn="verify_tsig_and_write_tsig_rr,ReadTsigRr::try_from,verification_core,check_mac_size,check_time,Writer::finish_with_mac,PreparedTsigRr::sign_response"
 //   bound="as c10_verify_ok_sha256_l32 with hmac-sha1, a MAC truncated to 10 octets (the minimum), owner 'K.' and algorithm 'HMAC-SHA1.' in upper case, now = T0 - 300 (early edge); up to the return of the helper; unwind 22"
 //   sym="id, flags, qtype, qclass, key:[u8;2], mac:[u8;10], original_id, error"
 c10_stubs!(c10_verify_ok_sha1_l10_early_upcase, 22, verify_case::<10, 37>(AlgSel::Sha1, true, Clock::At(-300), true, false));
 
-// @harness name=c10_verify_badtime_sha1_l20_late props=C10 tier=quick mem=6 t=1800 stubs="S5,S5a,S8,S9" kani="--no-assertion-reach-checks"
+// @harness name=c10_verify_badtime_sha1_l20_late props=C10 tier=quick mem=6 t=1200 stubs="S5,S5a,S8,S9" kani="--no-assertion-reach-checks"
 //   fn="verify_tsig_and_write_tsig_rr,check_time,PreparedTsigRr::new_from_read,PreparedTsigRr::other,Writer::finish_with_mac,PreparedTsigRr::sign_response"
 //   bound="hmac-sha1, full 20-octet MAC that the MAC model accepts, now = T0 + 301 (one second past the window): NOTAUTH and not authenticated; decided up to the return of the helper, NOT through finish_with_mac; unwind 22"
 //   sym="id, flags, qtype, qclass, key:[u8;2], mac:[u8;20], original_id, error"
 c10_stubs!(c10_verify_badtime_sha1_l20_late, 22, verify_case::<20, 47>(AlgSel::Sha1, true, Clock::At(301), false, false));
 
-// @harness name=c10_verify_badtime_sha256_l16_early props=C10 tier=thorough mem=6 t=1800 stubs="S5,S5a,S8,S9" kani="--no-assertion-reach-checks"
+// @harness name=c10_verify_badtime_sha256_l16_early props=C10 tier=thorough mem=6 t=1200 stubs="S5,S5a,S8,S9" kani="--no-assertion-reach-checks"
 //   fn="verify_tsig_and_write_tsig_rr,check_time,PreparedTsigRr::new_from_read,Writer::finish_with_mac"
 //   bound="hmac-sha256, MAC truncated to 16, accepted by the MAC model, now = T0 - 301: NOTAUTH, not authenticated; up to the return of the helper; unwind 34"
 //   sym="id, flags, qtype, qclass, key:[u8;2], mac:[u8;16], original_id, error"
 c10_stubs!(c10_verify_badtime_sha256_l16_early, 34, verify_case::<16, 45>(AlgSel::Sha256, true, Clock::At(-301), false, false));
 
-// @harness name=c10_badsig_sha256_l32 props=C10 tier=quick mem=6 t=1800 stubs="S5,S5a,S8,S9" kani="--no-assertion-reach-checks"
+// @harness name=c10_badsig_sha256_l32 props=C10 tier=quick mem=6 t=1200 stubs="S5,S5a,S8,S9" kani="--no-assertion-reach-checks"
 //   fn="verify_tsig_and_write_tsig_rr,verification_core,Writer::set_tsig,Writer::finish_with_mac,PreparedTsigRr::unsigned"
 //   bound="hmac-sha256, 32-octet MAC that the MAC model rejects; time signed, fudge and now fully symbolic: NOTAUTH/BADSIG, empty MAC, whatever the time; unwind 34"
 //   sym="id, flags, qtype, qclass, key, mac:[u8;32], original_id, error, time:[u8;6], fudge:u16, now:[u8;6]"
 c10_stubs!(c10_badsig_sha256_l32, 34, verify_case::<32, 61>(AlgSel::Sha256, false, Clock::Any, false, true));
 
-// @harness name=c10_badsig_sha1_l20 props=C10 tier=thorough mem=6 t=1800 stubs="S5,S5a,S8,S9" kani="--no-assertion-reach-checks"
+// @harness name=c10_badsig_sha1_l20 props=C10 tier=thorough mem=6 t=1200 stubs="S5,S5a,S8,S9" kani="--no-assertion-reach-checks"
 //   fn="verify_tsig_and_write_tsig_rr" bound="hmac-sha1, 20-octet MAC rejected by the MAC model; symbolic times; unwind 34"
 //   sym="id, flags, qtype, qclass, key, mac:[u8;20], original_id, error, time, fudge, now"
 c10_stubs!(c10_badsig_sha1_l20, 22, verify_case::<20, 47>(AlgSel::Sha1, false, Clock::Any, false, true));
 
-// @harness name=c10_formerr_sha256_l0 props=C10 tier=quick mem=6 t=1800 stubs="S5,S5a,S8,S9" kani="--no-assertion-reach-checks"
+// @harness name=c10_formerr_sha256_l0 props=C10 tier=quick mem=6 t=1200 stubs="S5,S5a,S8,S9" kani="--no-assertion-reach-checks"
 //   fn="verify_tsig_and_write_tsig_rr,check_mac_size" bound="hmac-sha256 with an empty MAC: FORMERR, no answer data; symbolic times; unwind 34"
 //   sym="id, flags, qtype, qclass, key, original_id, error, time, fudge, now"
 c10_stubs!(c10_formerr_sha256_l0, 34, verify_case::<0, 29>(AlgSel::Sha256, true, Clock::Any, false, true));
 
-// @harness name=c10_formerr_sha256_l33 props=C10 tier=quick mem=6 t=1800 stubs="S5,S5a,S8,S9" kani="--no-assertion-reach-checks"
+// @harness name=c10_formerr_sha256_l33 props=C10 tier=quick mem=6 t=1200 stubs="S5,S5a,S8,S9" kani="--no-assertion-reach-checks"
 //   fn="verify_tsig_and_write_tsig_rr,check_mac_size" bound="hmac-sha256 with a 33-octet MAC (longer than the output): FORMERR; symbolic times; unwind 35"
 //   sym="id, flags, qtype, qclass, key, mac:[u8;33], original_id, error, time, fudge, now"
 c10_stubs!(c10_formerr_sha256_l33, 35, verify_case::<33, 62>(AlgSel::Sha256, true, Clock::Any, false, true));
 
-// @harness name=c10_formerr_sha256_l10 props=C10 tier=thorough mem=6 t=1800 stubs="S5,S5a,S8,S9" kani="--no-assertion-reach-checks"
+// @harness name=c10_formerr_sha256_l10 props=C10 tier=thorough mem=6 t=1200 stubs="S5,S5a,S8,S9" kani="--no-assertion-reach-checks"
 //   fn="verify_tsig_and_write_tsig_rr,check_mac_size" bound="hmac-sha256 with a 10-octet MAC (acceptable for hmac-sha1 only): FORMERR; unwind 34"
 //   sym="id, flags, qtype, qclass, key, mac:[u8;10], original_id, error, time, fudge, now"
 c10_stubs!(c10_formerr_sha256_l10, 34, verify_case::<10, 39>(AlgSel::Sha256, true, Clock::Any, false, true));
 
-// @harness name=c10_formerr_sha1_l21 props=C10 tier=thorough mem=6 t=1800 stubs="S5,S5a,S8,S9" kani="--no-assertion-reach-checks"
+// @harness name=c10_formerr_sha1_l21 props=C10 tier=thorough mem=6 t=1200 stubs="S5,S5a,S8,S9" kani="--no-assertion-reach-checks"
 //   fn="verify_tsig_and_write_tsig_rr,check_mac_size" bound="hmac-sha1 with a 21-octet MAC: FORMERR; unwind 34"
 //   sym="id, flags, qtype, qclass, key, mac:[u8;21], original_id, error, time, fudge, now"
 c10_stubs!(c10_formerr_sha1_l21, 34, verify_case::<21, 48>(AlgSel::Sha1, true, Clock::Any, false, true));
 
 // ---- steps 1 and 2: algorithm and key lookup
 
-// @harness name=c10_lookup_unknown_alg props=C10 tier=quick mem=6 t=1800 stubs="S1,S5b,S8" kani="--no-assertion-reach-checks"
+// @harness name=c10_lookup_unknown_alg props=C10 tier=quick mem=6 t=1200 stubs="S1,S5b,S8" kani="--no-assertion-reach-checks"
 //   fn="find_tsig_algorithm_or_write_error,PreparedTsigRr::new_from_read,Writer::set_tsig,Writer::finish_with_mac,PreparedTsigRr::unsigned"
 //   bound="algorithm name 'hmac-sha7.' (not defined), 10 MAC octets; symbolic times: NOTAUTH/BADKEY, empty MAC, the response TSIG repeats the unknown algorithm name; unwind 18"
 //   sym="id, flags, qtype, qclass, key, mac:[u8;10], original_id, error, time, fudge, now"
 c10_stubs!(c10_lookup_unknown_alg, 18, lookup_case::<37>(AlgSel::Unknown, KeySel::Match, false));
 
-// @harness name=c10_lookup_no_key_sha256 props=C10 tier=quick mem=6 t=1800 stubs="S1,S5b,S8" kani="--no-assertion-reach-checks"
+// @harness name=c10_lookup_no_key_sha256 props=C10 tier=quick mem=6 t=1200 stubs="S1,S5b,S8" kani="--no-assertion-reach-checks"
 //   fn="find_tsig_algorithm_or_write_error,find_tsig_key_or_write_error,PreparedTsigRr::new_from_read,Writer::set_tsig,Writer::finish_with_mac"
 //   bound="hmac-sha256, empty key map: NOTAUTH/BADKEY; symbolic times; unwind 18"
 //   sym="id, flags, qtype, qclass, mac:[u8;10], original_id, error, time, fudge, now"
